@@ -1,7 +1,7 @@
 //! Generator of load graphs (shared by C02, C03, C39, C05 histories).
 
 use crate::loader::Fmt;
-use crate::resolve::all_matches;
+use crate::resolve::{all_matches, relative_matches};
 use crate::simfs::SimFs;
 use crate::spec::*;
 use vcommon::Rng;
@@ -120,6 +120,14 @@ fn spell(
         if m.len() == 1 && m.contains(target) {
             return Some(url);
         }
+        // an importer in a sub-directory whose url, taken relative to it, names exactly the target:
+        // the first lookup round decides, although the same url means another file elsewhere
+        if iname.contains('/') && !via_loadpath {
+            let r = relative_matches(fs, bases, iname, &url, kind == LoadKind::Import);
+            if r.len() == 1 && r.contains(target) {
+                return Some(url);
+            }
+        }
     }
     None
 }
@@ -159,7 +167,18 @@ fn lookalike(path: &str, how: u64, may_be_css: bool) -> Option<String> {
                 return None;
             }
         }
-        _ => format!("{dir}/{bare}/index.scss"),
+        3 => format!("{dir}/{bare}/index.scss"),
+        _ => {
+            // the same name in another directory of the same base: one url string, two meanings
+            let (base, sub) = dir.split_once('/').map_or((dir, ""), |(b, s)| (b, s));
+            let other = ["", "d", "d/e", "m", "r"].iter().find(|d| **d != sub && (how % 2 == 0 || !d.is_empty()))?;
+            let name2 = if how % 2 == 0 { format!("_{bare}{ext}") } else { name.to_string() };
+            if other.is_empty() {
+                format!("{base}/{name2}")
+            } else {
+                format!("{base}/{other}/{name2}")
+            }
+        }
     })
 }
 
@@ -238,7 +257,7 @@ pub fn gen_graph(p: &GraphParams, rng: &mut Rng) -> GraphSpec {
         // sloppy lock/cache key would confuse
         if i >= 2 && rng.chance(1, 6) {
             let j = 1 + rng.usize(i - 1);
-            if let Some(twin) = lookalike(&paths[j], rng.below(4), css_leaf) {
+            if let Some(twin) = lookalike(&paths[j], rng.below(6), css_leaf) {
                 // a css file cannot load anything: only a leaf drawn as css may get a css name
                 if (!twin.ends_with(".css") || css_leaf) && !paths.contains(&twin) && !paths.iter().any(|q| q.starts_with(&format!("{}/", twin.trim_end_matches(".scss").trim_end_matches(".css")))) {
                     path = twin;
